@@ -617,6 +617,7 @@ class RoundGen:
                   "dims": copy.deepcopy(node["dims"])}
         v = self.good_value(node)
         unit = None
+        none_unit = False
         if fault == "bad_value":
             bv, kind = self.bad_value(node)
             if bv is None:
@@ -626,8 +627,12 @@ class RoundGen:
         elif rng.random() < cfg["p_none"] and not node["declared"] and not (
                 node["options"] or node["condition"] is not None or node["format"] is not None):
             v = None
+            none_unit = rng.random() < 0.3
         if node["unsigned"] and v is not None and not isinstance(v, (str, bool)):
             v = DM.map_leaves(v, abs)
+        if v is None and none_unit and typ in ("int", "float") and node["unit"] is not None \
+                and node["dims"] is None:
+            unit = self.other_unit(node, typ)      # 'a = none cm': still no value, unit kept
         on_boundary = typ in ("int", "float") and not isinstance(v, list) and v is not None \
             and v in cond_range(node, self.g.units)[2]
         if typ in ("int", "float") and v is not None:
@@ -1061,6 +1066,7 @@ class DipStoreMachine(Machine):
         if prop == "C14":
             cfg["faults"] = [f for f in ("other_type", "other_dimension", "constant",
                                          "declared_unset") if rng.random() < 0.7]
+            cfg["weights"]["cmp"] = rng.choice([0, 0, 1])   # steps that read stored nodes
             if rng.random() < 0.4:
                 # constrained nodes in the assignment mix: validation must not touch the
                 # value, unit or type that the assignments produced
@@ -1093,6 +1099,8 @@ class DipStoreMachine(Machine):
                              if rng.random() < 0.7]
             if cfg["callbacks"] and rng.random() < 0.7:
                 cfg["faults"].append("callback_raises")
+            if cfg["constraints"] and rng.random() < 0.7:
+                cfg["faults"].append("bad_value")     # e.g. on an imported copy
         return cfg
 
     # ------------------------------------------------------------------ lifecycle
@@ -1329,7 +1337,9 @@ class DipStoreMachine(Machine):
 
     def _tag(self, default, stmts, model):
         kinds = {st["k"] for st in stmts}
-        if kinds & {"inject", "import", "source", "cmp_expr", "fn"} and self.cfg["prop"] != "C16":
+        if kinds & {"inject", "import", "source", "fn"} and self.cfg["prop"] != "C16":
+            return "C17"
+        if "cmp_expr" in kinds and self.cfg["prop"] == "C17":
             return "C17"
         if kinds & {"option", "options", "condition", "format"} or any(
                 n["options"] or n["condition"] is not None or n["format"] is not None
@@ -1381,6 +1391,7 @@ class DipStoreMachine(Machine):
             self.stats.probe("round_with_several_chunks")
         # ---- model verdict
         expected, why, eprop = "commit", None, None
+        self._abort_imported = False
         io = op.get("io_fault")
         io_paths_read = [c["path"] for c, _ in chunks if c["via"] == "file"]
         try:
@@ -1398,6 +1409,9 @@ class DipStoreMachine(Machine):
             expected, why, eprop = "abort", a.why, a.prop
             if io and a.why.startswith(("source file does not exist", "I/O fault")):
                 eprop = "C17"
+            self._abort_imported = bool(
+                a.prop == "C16" and isinstance(a.detail, list) and a.detail and
+                isinstance(a.detail[0], str) and model.nodes.get(a.detail[0], {}).get("imported"))
         except DM.Unspecified as u:
             expected, why = "unspecified", str(u)
         # ---- implementation
@@ -1468,6 +1482,8 @@ class DipStoreMachine(Machine):
             self.base.restore()
         # ---- oracle 2: must abort
         if expected == "abort" and got == "commit":
+            if eprop == "C16" and self.cfg["prop"] == "C17" and getattr(self, "_abort_imported", False):
+                eprop = "C17"     # a constraint that travelled with an import is not enforced
             v = self._violation(eprop if eprop in ("C14", "C16", "C17") else tag,
                                 "invalid_text_accepted",
                                 dict(detail_base, model_says=why, result=_data_or_error(env)),
